@@ -35,6 +35,9 @@ pub enum SizeSpec {
     Doublings(u8),
     /// larger than the whole budget
     OverBudget,
+    /// (quarters, odd): `quarters`/4 of the CURRENT buffer size plus `odd` bytes — megabytes once the buffer has grown;
+    /// only used by the large-buffer stage (growth policies may change with the size of the live buffer)
+    Big(u8, u8),
     /// plain sizes
     Plain(u16, u16),
     EmptyKey(u16),
@@ -105,12 +108,20 @@ pub fn plan_capped(conf: &SConf, sizes: &[SizeSpec], cap: usize) -> (Vec<(usize,
                 over = true;
                 t + t / 2 + 7
             }
+            SizeSpec::Big(q, odd) => {
+                if sim.buf > (32 << 20) {
+                    1000 + *odd as usize
+                } else {
+                    (sim.buf / 4 * (*q as usize).clamp(1, 10) + *odd as usize).min(48 << 20)
+                }
+            }
             SizeSpec::Plain(k, v) => *k as usize + *v as usize,
             SizeSpec::EmptyKey(v) => *v as usize,
             SizeSpec::EmptyVal(k) => *k as usize,
             SizeSpec::BothEmpty => 0,
-        }
-        .min(cap);
+        };
+        // Miri cases (small cap) never get megabytes; elsewhere `Big` entries are bounded by their own 48 MiB limit
+        let kv = if matches!(s, SizeSpec::Big(..)) && cap >= 600_000 { kv } else { kv.min(cap) };
         let (k, v) = match s {
             SizeSpec::EmptyKey(_) | SizeSpec::BothEmpty => (0, kv),
             SizeSpec::EmptyVal(_) => (kv, 0),
@@ -495,7 +506,34 @@ impl Prop for C17 {
         let sorter = (sorter_conf(), prop::sample::select(&MergeKind::ALL[..]), vec(size_spec(), 1..60), 0u8..3)
             .prop_map(|(conf, kind, sizes, exit)| Case::Sorter { conf, kind, sizes, exit });
         let reader = (gen::file_spec_light(tier), vec(gen::probe(), 0..12), gen::history(40)).prop_map(|(spec, probes, ops)| Case::Reader { spec, probes, ops });
-        vec![stage("sorter-sizes", sorter, tier.pick(2400, 80_000)).shrink(300), stage("reader-paths", reader, tier.pick(600, 20_000)).shrink(300)]
+        // a live buffer of megabytes (1..128 MiB) that keeps growing: entries sized relative to the current buffer, odd
+        // byte counts, a budget that is never reached
+        let big_sizes = vec(prop_oneof![4 => (1u8..=10, any::<u8>()).prop_map(|(q, o)| SizeSpec::Big(q, o)), 1 => (1u16..60, 0u16..5000).prop_map(|(k, v)| SizeSpec::Plain(k, v)), 1 => Just(SizeSpec::ExactFit), 1 => (1u8..=15).prop_map(SizeSpec::Leave)], 3..9);
+        let large = (prop_oneof![(1usize << 20)..(6usize << 20), Just(1usize << 20), Just(4usize << 20), Just(8usize << 20)], any::<bool>(), prop::sample::select(&MergeKind::ALL[..]), big_sizes, 0u8..3).prop_map(|(cap, stable, kind, sizes, exit)| Case::Sorter {
+            conf: SConf {
+                threshold: Threshold::Exact(1 << 30),
+                init_cap: Some(cap),
+                allow_realloc: true,
+                max_nb_chunks: 25,
+                stable,
+                parallel: false,
+                chunk_codec: None,
+                chunk_level: None,
+                block_size: None,
+                interval: None,
+                levels: None,
+                creator: CreatorKind::Instrumented,
+                order: 0,
+            },
+            kind,
+            sizes,
+            exit,
+        });
+        vec![
+            stage("sorter-sizes", sorter, tier.pick(2400, 80_000)).shrink(300),
+            stage("reader-paths", reader, tier.pick(600, 20_000)).shrink(300),
+            stage("large-buffer", large, tier.pick(64, 1500)).shrink(12),
+        ]
     }
 
     fn rule(&self) -> String {
